@@ -390,3 +390,108 @@ def c13_sortable_float(rep):
             rep.inconclusive(tag, "solver unknown")
     rep.absorb(eng)
     rep.sample({"function": "float_to_sortable_long", "domain": "all non-NaN doubles"})
+
+
+# ------------------------------------------------------------------ DATETIME <-> long (E2 pybmc, Int theory)
+def rp_datetime_long(d, s, u, d2, s2, u2):
+    import datetime as _dt
+    from whoosh.util.times import datetime_to_long, long_to_datetime
+    try:
+        a = _dt.datetime.min + _dt.timedelta(days=d, seconds=s, microseconds=u)
+        b = _dt.datetime.min + _dt.timedelta(days=d2, seconds=s2, microseconds=u2)
+    except OverflowError:
+        return None
+    la, lb = datetime_to_long(a), datetime_to_long(b)
+    if long_to_datetime(la) != a:
+        return "long_to_datetime(datetime_to_long(%r)) = %r" % (a, long_to_datetime(la))
+    if (a < b) != (la < lb) or (a == b) != (la == lb):
+        return "order not preserved: %r vs %r -> %r vs %r" % (a, b, la, lb)
+    return None
+
+
+@q(bounds="every datetime from datetime.min to datetime.max at microsecond resolution, i.e. every normalised timedelta (0 <= days <= 3652058, 0 <= seconds < 86400, "
+          "0 <= microseconds < 10^6) and every long 0 <= x <= 315537897599999999 (mathematical integers, linear arithmetic with division by constants)",
+   funcs=["whoosh.util.times.timedelta_to_usecs", "whoosh.util.times.datetime_to_long", "whoosh.util.times.long_to_datetime"],
+   stubs=["datetime - datetime.min -> an object with the normalised (days, seconds, microseconds) fields CPython's timedelta documents; "
+          "datetime.min + timedelta(days, seconds, microseconds) -> that triple (CPython's exact datetime arithmetic is trusted)"],
+   outside="time zones (tzinfo is dropped by datetime_to_long by design), CPython's datetime arithmetic itself")
+def c13_datetime_long(rep):
+    """The DATETIME field's number encoding: datetime -> microseconds since datetime.min -> datetime is the identity, a bijection onto
+    [0, max] and strictly monotone, for every representable datetime."""
+    from vk.pybmc import Engine, Unsupported
+    from whoosh.util import times as T
+    for args in [(0, 0, 0, 0, 0, 1), (3652058, 86399, 999999, 3652058, 86399, 999998), (1, 0, 0, 0, 86399, 999999), (730000, 43200, 500000, 730000, 43200, 500000)]:
+        r = rp_datetime_long(*args)
+        rep.queries += 1
+        if r is not None:
+            rep.violation("datetime long vector", "rp_datetime_long%r" % (args,), r)
+            return
+
+    class _Min(object):
+        def __add__(self, other):
+            return other
+
+    class _DT(object):
+        min = _Min()
+
+    class _TD(object):
+        def __init__(self, d, s, u):
+            self.days, self.seconds, self.microseconds = d, s, u
+
+    def td_stub(eng, days=0, seconds=0, microseconds=0):
+        return (days, seconds, microseconds)
+    eng = Engine(width=0, mode="fork", stubs={T.timedelta: td_stub}, timeout_ms=60000)
+    d, s, u, d2, s2, u2, x = [eng.sym_int(n) for n in ("d", "s", "u", "d2", "s2", "u2", "x")]
+    MAXD, MAXX = 3652058, 315537897599999999
+    norm = [d >= 0, d <= MAXD, s >= 0, s < 86400, u >= 0, u < 1000000]
+    norm2 = [d2 >= 0, d2 <= MAXD, s2 >= 0, s2 < 86400, u2 >= 0, u2 < 1000000]
+    saved = T.datetime
+    T.datetime = _DT
+    try:
+        enc_paths = list(eng.paths(T.timedelta_to_usecs, [_TD(d, s, u)], pre=norm))
+        dec_paths = list(eng.paths(T.long_to_datetime, [x], pre=[x >= 0, x <= MAXX]))
+    except Unsupported as e:
+        rep.inconclusive("datetime long", "pybmc: %s" % e)
+        return
+    finally:
+        T.datetime = saved
+    if len(enc_paths) != 1 or len(dec_paths) != 1:
+        rep.inconclusive("datetime long", "expected straight-line code, got %d/%d paths" % (len(enc_paths), len(dec_paths)))
+        return
+    E = eng.to_term(enc_paths[0][1])
+    D = tuple(eng.to_term(t) for t in dec_paths[0][1])
+    E2 = z3.substitute(E, (d, d2), (s, s2), (u, u2))
+    Dx = tuple(z3.substitute(t, (x, E)) for t in D)
+    lex_lt = z3.Or(d < d2, z3.And(d == d2, s < s2), z3.And(d == d2, s == s2, u < u2))
+    EofD = z3.substitute(E, (d, D[0]), (s, D[1]), (u, D[2]))
+    side = [o for _, o in eng.obligations]
+    obligations = [
+        ("long_to_datetime(datetime_to_long(t)) == t", norm, z3.Or(Dx[0] != d, Dx[1] != s, Dx[2] != u)),
+        ("0 <= datetime_to_long(t) <= max", norm, z3.Or(E < 0, E > MAXX)),
+        ("strictly monotone", norm + norm2 + [lex_lt], E >= E2),
+        ("long_to_datetime(x) is a normalised, representable value", [x >= 0, x <= MAXX], z3.Or(D[0] < 0, D[0] > MAXD, D[1] < 0, D[1] >= 86400, D[2] < 0, D[2] >= 1000000)),
+        ("datetime_to_long(long_to_datetime(x)) == x", [x >= 0, x <= MAXX], EofD != x),
+    ]
+    if side:
+        obligations.append(("side obligations of the encoding", norm + [x >= 0, x <= MAXX], z3.Or(*side)))
+    bad = 0
+    for name, pre, neg in obligations:
+        r = eng.check(*(list(pre) + [neg]))
+        if r == z3.unsat:
+            continue
+        bad += 1
+        if r == z3.sat:
+            m = eng.last_model
+            vals = [m.eval(v, model_completion=True).as_long() for v in (d, s, u, d2, s2, u2)]
+            rep.violation("datetime long: " + name, "rp_datetime_long(%d, %d, %d, %d, %d, %d)" % tuple(vals))
+        else:
+            rep.inconclusive("datetime long: " + name, "unknown")
+    # vacuity guard: without the normalisation of seconds the round trip must fail
+    r = eng.check(d >= 0, s >= 86400, u >= 0, u < 1000000, z3.Or(Dx[0] != d, Dx[1] != s, Dx[2] != u))
+    if r != z3.sat:
+        rep.inconclusive("datetime long vacuity guard", "expected sat for unnormalised seconds, got %s" % r)
+        bad += 1
+    rep.absorb(eng)
+    if not bad:
+        rep.held("datetime <-> long: identity both ways, range, strict monotonicity: %d obligations" % len(obligations))
+    rep.sample({"function": "datetime_to_long/long_to_datetime", "obligations": len(obligations)})
